@@ -82,3 +82,46 @@ Definition client_mismatches (cs : list (N * nat * bool * bool * bool)) : list N
   flat_map (fun c => match c with (i, code, to, te, fa) =>
      match client_flags code with (a, b, d) =>
        if Bool.eqb a to && Bool.eqb b te && Bool.eqb d fa then [] else [i] end end) cs.
+
+(* ---- the error encoder (http.ErrorEncoder) and grpc.EncodeError on error shapes ---- *)
+Definition mkr n i m to te fa : resp :=
+  {| rname := n; rid := i; rmsg := m; rtimeout := to; rtemporary := te; rfault := fa |}.
+
+(* the harness's formatters (harness/cmd/c18/encode.go teapotFormatter, bitsFormatter) *)
+Inductive fmtsel := FDefault | FTeapot | FBits.
+
+Definition teapot_formatter : formatter :=
+  fun e => (418, mkr "teapot" "" ("custom: " ++ error_string e) false false false).
+
+Definition bits_formatter : formatter :=
+  fun e => match find_serr e with
+           | Some c => (460 + (if ctimeout c then 1 else 0) + (if ctemporary c then 2 else 0) + (if cfault c then 4 else 0),
+                        mkr ("x-" ++ cname c) (cid c) (cmsg c) (ctimeout c) (ctemporary c) (cfault c))
+           | None => (599, mkr "x-none" "" (error_string e) false false false)
+           end.
+
+Definition formatter_of (s : fmtsel) : option formatter :=
+  match s with FDefault => None | FTeapot => Some teapot_formatter | FBits => Some bits_formatter end.
+
+Definition resp_eq_dec (a b : resp) : {a = b} + {a <> b}.
+Proof. decide equality; try apply bool_dec; apply string_dec. Defined.
+
+Definition writer_eq_dec (a b : writer) : {a = b} + {a <> b}.
+Proof.
+  decide equality; try apply Nat.eq_dec; try (apply list_eq_dec; apply resp_eq_dec).
+  decide equality; apply Nat.eq_dec.
+Defined.
+
+(* identifiers drawn by NewErrorID are blanked by the harness: the model draws "" *)
+Definition encode_mismatches (cs : list (N * fmtsel * eshape * writer)) : list N :=
+  flat_map (fun c => match c with (i, f, e, observed) =>
+     if writer_eq_dec (error_encoder (formatter_of f) "" e fresh_writer) observed then [] else [i] end) cs.
+
+Definition grpcshape_mismatches (cs : list (N * eshape * grpc_code * string * core)) : list N :=
+  flat_map (fun c => match c with (i, e, code, smsg, back) =>
+     match grpc_encode "" e with (mc, mm, mr) =>
+       if code_eq_dec mc code then
+         if string_dec mm smsg then
+           if core_eq_dec (core_of_resp mr) back then [] else [i]
+         else [i]
+       else [i] end end) cs.
